@@ -527,6 +527,10 @@ def main():
     if tier == "thorough":
         units += [u for u in pcfg.get("thorough_units", []) if u not in units]
     wdir = os.path.join(VERIF, "work", prop + "-" + tier)
+    if os.path.realpath(repo) != "/repo":
+        # evaluation runs against scratch trees may run side by side for the same property
+        import hashlib
+        wdir += "-" + hashlib.sha1(os.path.realpath(repo).encode()).hexdigest()[:8]
     shutil.rmtree(wdir, ignore_errors=True)
     os.makedirs(wdir, exist_ok=True)
     results = []
